@@ -206,10 +206,21 @@ U1Nest2 == {InWrap(w1, InWrap(w2, e)) : w1 \in InWraps \cup {"dep"}, w2 \in InWr
                                         e \in {PA, PB, [required |-> <<"a">>] @@ PA, [patternProperties |-> ("^a" :> TrueS)]}}
            \cup {[defs |-> [x |-> InWrap(w2, e)], if |-> [ref |-> LocalRef(PtrDefs("x"))]] : w2 \in InWraps, e \in {PA, PB}}
            \cup {[defs |-> [x |-> e], if |-> [ref |-> LocalRef(PtrDefs("x"))]] : e \in {PA, PB, [required |-> <<"a">>] @@ PA}}
-U1Schemas(z) == U1Deep \cup U1Twice \cup {u @@ x : u \in UnevP, x \in U1Nest2} \cup {u @@ x : u \in UnevP, x \in IF K >= 2 THEN UNION {U1Inplace(0), Pairs(U1Inplace(0)), U1Nested(0), U1Child} ELSE UNION {U1Inplace(0), U1Nested(0), U1Child}}
+\* the keyword applied to SEVERAL unevaluated properties, the first of which is an object whose own validation runs
+\* unevaluatedProperties over several members again (re-entrant: each application has its own set of pending names)
+EntryS == [types |-> <<"object", "integer">>, unevaluatedProperties |-> IntS]
+U1Reentrant == {[properties |-> [c |-> TrueS], unevaluatedProperties |-> EntryS],
+                [defs |-> [e |-> EntryS], properties |-> [c |-> TrueS], unevaluatedProperties |-> [ref |-> LocalRef(PtrDefs("e"))]],
+                [defs |-> [e |-> [types |-> <<"object", "integer">>, unevaluatedProperties |-> [ref |-> LocalRef(PtrDefs("e"))]]],
+                 unevaluatedProperties |-> [ref |-> LocalRef(PtrDefs("e"))]],
+                [unevaluatedProperties |-> [anyOf |-> <<EntryS, StrS>>]]}
+U1Schemas(z) == U1Deep \cup U1Twice \cup U1Reentrant \cup {u @@ x : u \in UnevP, x \in U1Nest2} \cup {u @@ x : u \in UnevP, x \in IF K >= 2 THEN UNION {U1Inplace(0), Pairs(U1Inplace(0)), U1Nested(0), U1Child} ELSE UNION {U1Inplace(0), U1Nested(0), U1Child}}
 U1Vals == {Obj(m) : m \in MapsOf({"a", "b", "c"}, {Num(R_1), Str("a")}, 0, 3)}
           \cup {Obj([a |-> Obj([b |-> Num(R_1), c |-> Num(R_1)]), b |-> Num(R_1)]), Num(R_1)}
           \cup {Obj([a |-> x]) : x \in {Obj([b |-> Num(R_1)]), Obj([b |-> Str("a")]), EmptyObj, Obj([c |-> Num(R_1)]), Obj([b |-> Num(R_1), c |-> Str("a")])}}
+          \cup {Obj([a |-> Obj([b |-> x, c |-> y]), b |-> w]) : x \in {Num(R_1), Str("a")}, y \in {Num(R_1), Str("a")}, w \in {Num(R_1), Str("a")}}
+          \cup {Obj([a |-> Obj([a |-> Num(R_1), b |-> Num(R_1), c |-> Num(R_1)]), b |-> Num(R_1), c |-> w]) : w \in {Num(R_1), Str("a")}}
+          \cup {Obj([a |-> Num(R_1), b |-> Obj([a |-> Num(R_1), b |-> Num(R_1)]), c |-> w]) : w \in {Num(R_1), Str("a")}}
 
 \* ------------------------------------------------------------ U2 unevaluatedItems
 ItemSubs ==
@@ -328,6 +339,9 @@ RN == <<"r1.json", "r2.json", "r3.json", "r4.json">>
 TNode(kind, i) ==
   [const |-> Num(Mark[i + 1])] @@
   (IF kind = "dyn" THEN [dynamicAnchor |-> "n"] ELSE IF kind = "anc" THEN [anchor |-> "n"] ELSE <<>>)
+\* a resource that declares the dynamic anchor may ALSO declare plain anchors of other names, on subschemas a walk
+\* reaches later ($defs/z after $defs/t): what a resource is known to declare only grows (odd-numbered resources do)
+PlainLater(kind, i) == IF kind = "dyn" /\ i % 2 = 1 THEN [z |-> [anchor |-> "pl", type |-> "null"]] ELSE <<>>
 ResRef(j, f) == IF j = 0 THEN Ref(RelRef(<<"root.json">>), f) ELSE Ref(RelRef(<<RN[j]>>), f)
 HopTo(j, hk) ==
   CASE hk = "ref"   -> [ref |-> ResRef(j, FragNone)]
@@ -373,8 +387,8 @@ DyOuterM(hk) == IF hk = "dref" THEN [u |-> [dynamicAnchor |-> "m", type |-> "str
 DyResM(i, kinds, chain, hk, fin, withId, rem) ==
   DyRootAnchor(hk) @@
   (IF withId THEN [id |-> IdOf(RelRef(<<RN[i]>>))] ELSE <<>>)
-  @@ (IF hk = "inner" THEN [defs |-> [t |-> TNode(kinds[i + 1], i), e |-> DyActM(i, chain, hk, fin, rem)]]
-      ELSE [defs |-> [t |-> TNode(kinds[i + 1], i)]] @@ DyActM(i, chain, hk, fin, rem))
+  @@ (IF hk = "inner" THEN [defs |-> [t |-> TNode(kinds[i + 1], i), e |-> DyActM(i, chain, hk, fin, rem)] @@ PlainLater(kinds[i + 1], i)]
+      ELSE [defs |-> [t |-> TNode(kinds[i + 1], i)] @@ PlainLater(kinds[i + 1], i)] @@ DyActM(i, chain, hk, fin, rem))
 DyRes(i, kinds, chain, hk, fin, withId) == DyResM(i, kinds, chain, hk, fin, withId, {})
 DyRootURI == URI("http", "h1", TRUE, <<"root.json">>)
 DyEmbedded(kinds, chain, hk, fin) ==
@@ -427,7 +441,7 @@ FkBody(i, hk, fin) ==
     [] i = 3 -> DyFinal(fin)
     [] OTHER -> <<>>
 FkRes(i, kinds, hk, fin, withId) ==
-  (IF withId THEN [id |-> IdOf(RelRef(<<RN[i]>>))] ELSE <<>>) @@ [defs |-> [t |-> TNode(kinds[i + 1], i)]] @@ FkBody(i, hk, fin)
+  (IF withId THEN [id |-> IdOf(RelRef(<<RN[i]>>))] ELSE <<>>) @@ [defs |-> [t |-> TNode(kinds[i + 1], i)] @@ PlainLater(kinds[i + 1], i)] @@ FkBody(i, hk, fin)
 FkFinals == {[k |-> "frag"], [k |-> "ptr"], [k |-> "resSib", j |-> 4]} \cup {[k |-> "res", j |-> j] : j \in 0..4}
 FkEmbedded(kinds, hk, fin) ==
   [docs |-> <<[uri |-> DyRootURI,
@@ -438,7 +452,7 @@ FkRemote(kinds, hk, fin) ==
   [docs |-> <<[uri |-> DyRootURI, s |-> [defs |-> [t |-> TNode(kinds[1], 0)]] @@ FkBody(0, hk, fin)]>>
              \o [j \in 1..4 |-> [uri |-> URI("http", "h1", TRUE, <<RN[j]>>), s |-> FkRes(j, kinds, hk, fin, FALSE)]]]
 FkResF(i, kinds, hk, fin, withId, fork) ==
-  (IF withId THEN [id |-> IdOf(RelRef(<<RN[i]>>))] ELSE <<>>) @@ [defs |-> [t |-> TNode(kinds[i + 1], i)]] @@ FkBodyF(i, hk, fin, fork)
+  (IF withId THEN [id |-> IdOf(RelRef(<<RN[i]>>))] ELSE <<>>) @@ [defs |-> [t |-> TNode(kinds[i + 1], i)] @@ PlainLater(kinds[i + 1], i)] @@ FkBodyF(i, hk, fin, fork)
 FkEmbeddedF(kinds, hk, fin, fork) ==
   [docs |-> <<[uri |-> DyRootURI,
                s |-> [defs |-> [t |-> TNode(kinds[1], 0)] @@ [i \in {RN[j] : j \in 1..4} |->
